@@ -24,14 +24,17 @@ typedef Value<char> V; typedef FixedStream<char, 96> SS;
 #ifndef CUT
 #define CUT 9999
 #endif
+#ifndef LEAFN
+#define LEAFN 2     /* units per symbolic leaf string */
+#endif
 static char leaf[2][2];
 static SS *expv;
 static void L(const char *s) { while (*s) { *expv += *s; ++s; } }
-static void E(unsigned i) { StringUtils::EscapeHTMLSpecialChars(*expv, &leaf[i][0], SizeT{2}); }
-static void R(unsigned i) { expv->Write(&leaf[i][0], SizeT{2}); }
+static void E(unsigned i) { StringUtils::EscapeHTMLSpecialChars(*expv, &leaf[i][0], SizeT{LEAFN}); }
+static void R(unsigned i) { expv->Write(&leaf[i][0], SizeT{LEAFN}); }
 
 static void build(V &v) {
-    V s0{&leaf[0][0], SizeT{2}}, s1{&leaf[1][0], SizeT{2}};
+    V s0{&leaf[0][0], SizeT{LEAFN}}, s1{&leaf[1][0], SizeT{LEAFN}};
 #if VAL == 0      /* {"a": S0, "b": S1} */
     v["a"] = static_cast<V &&>(s0); v["b"] = static_cast<V &&>(s1);
 #elif VAL == 1    /* {"a": [S0, S1]} */
@@ -62,8 +65,9 @@ static bool leaves_intact(const V &v) {
 #else
     { const V *o = v.GetValue("<k>", SizeT{3}); if (o) a = o->GetValue(SizeT{0}); const V *o2 = v.GetValue("j", SizeT{1}); if (o2) b = o2->GetValue(SizeT{0}); }
 #endif
-    if (a == nullptr || b == nullptr || !a->IsString() || !b->IsString() || a->Length() != 2 || b->Length() != 2) return false;
-    return a->StringStorage()[0] == leaf[0][0] && a->StringStorage()[1] == leaf[0][1] && b->StringStorage()[0] == leaf[1][0] && b->StringStorage()[1] == leaf[1][1];
+    if (a == nullptr || b == nullptr || !a->IsString() || !b->IsString() || a->Length() != LEAFN || b->Length() != LEAFN) return false;
+    for (unsigned i = 0; i < LEAFN; i++) { if (a->StringStorage()[i] != leaf[0][i] || b->StringStorage()[i] != leaf[1][i]) return false; }
+    return true;
 }
 
 extern "C" void h_render() {
